@@ -56,7 +56,7 @@ C05Labels(c) ==
   \cup (IF \E i \in DOMAIN S(c) : NormSt(S(c)[i].from) # CurAfter(c, i - 1) THEN {"discontinuous"} ELSE {})
   \cup (IF c.out.stopped = "BreakpointReached" /\ StNode(Final(c)) \notin Bps(c) THEN {"false-breakpoint"} ELSE {})
   \cup (IF \E i \in DOMAIN S(c) : StNode(CurAfter(c, i - 1)) \in Bps(c) THEN {"missed-breakpoint"} ELSE {})
-  \cup (IF c.out.stopped = "Done" /\ ~c.nilbs /\ NodeOK(c, Final(c)) /\ ~MayRest(c.spec, Final(c), Perm(c)) THEN {"done-but-not-quiescent"} ELSE {})
+  \cup (IF c.out.stopped = "Done" /\ ~c.nilbs /\ ~c.out.finalq /\ NodeOK(c, Final(c)) /\ ~MayRest(c.spec, Final(c), Perm(c)) THEN {"done-but-not-quiescent"} ELSE {})
   \cup (IF c.out.stopped = "Done" /\ Rest(c) # <<>> /\ CanConsume(c.spec, Final(c)) THEN {"discarded-at-consuming-node"} ELSE {})
   \cup (IF c.out.stopped \notin {"Done", "Limited", "BreakpointReached"} THEN {"unknown-stop-reason"} ELSE {})
   \cup
